@@ -191,6 +191,8 @@ impl Monitor for Mon {
 
 pub fn prop() -> HistProp {
     let mut w = Weights::trading();
+    // funding drains: the oracle is set so that the next settlement consumes about half / all / several times a holder's margin
+    w.drain = 3;
     w.squeeze = 3;
     w.rewire = 1;
     HistProp {
